@@ -24,6 +24,8 @@ register(PropertySpec(
              "is emitted iff result or yield_when_false, and _is_false_ == not result at the yield"),
         Rule("OPERAND-VALUES", opden.rule_operand_values, 2,
              "each operand value handed to the operation is that operand's own entry of its binding"),
+        Rule("OPERAND-IN-ROW", opden.rule_operand_in_row, 1,
+             "the emitted row maps each operand to the value that was compared"),
         Rule("LOGIC-TRUTH", logic.rule_logic_truth, 12,
              "abstract interpretation of AND._evaluate__ and ElseIf._evaluate__ for every (left false, right false, "
              "yield_when_false): the _is_false_ flag carried by each emitted row is the truth table of the connective, "
@@ -229,6 +231,14 @@ register(PropertySpec(
         Rule("CONCAT-ONCE", aggregates.rule_concat_once, 3,
              "Concatenate._evaluate__ yields exactly one row on every path (counting domain {0,1,many} over the CFG), "
              "the row is yielded after the loop over child bindings, and accumulation is unconditional"),
+        Rule("OPERAND-IN-ROW", opden.rule_operand_in_row, 1,
+             "the row of a membership test maps each operand to the value that was compared (concatenate re-binds the other "
+             "variables in its own row)"),
+        Rule("VALUE-TRUTH", _lazy("values", "rule_value_truth"), 10,
+             "(shared with C19) concatenate collects falsy elements too"),
+        Rule("CLEAR-COMPLETE", _lazy("cacheidx", "rule_clear_complete"), 4,
+             "(shared with C20) a membership test against a concatenation is a comparator entered with no bound variable: "
+             "its cache is marked as covering everything, so clearing it after an abandoned evaluation must clear that mark"),
         Rule("EVAL-SIGNATURE", aggregates.rule_eval_signature, 15,
              "sibling agreement: every override of _evaluate__ accepts the parameters of the abstract declaration "
              "under the names its callers use"),
